@@ -951,7 +951,7 @@ func convertRule(l *slog.Logger, p any, table string, i int) (rule, error) {
 
 	toString := func(k string, m map[string]any) string {
 		v, ok := m[k]
-		if !ok {
+		if !ok || v == nil {
 			return ""
 		}
 		return fmt.Sprintf("%v", v)
@@ -990,10 +990,14 @@ func convertRule(l *slog.Logger, p any, table string, i int) (rule, error) {
 			v := reflect.ValueOf(rg)
 			r.Groups = make([]string, v.Len())
 			for i := 0; i < v.Len(); i++ {
-				if s, ok := v.Index(i).Interface().(string); ok {
+				e := v.Index(i).Interface()
+				if e == nil {
+					return r, errors.New("groups should not contain an empty (null) entry")
+				}
+				if s, ok := e.(string); ok {
 					r.Groups[i] = s
 				} else {
-					r.Groups[i] = fmt.Sprintf("%v", v.Index(i).Interface())
+					r.Groups[i] = fmt.Sprintf("%v", e)
 				}
 			}
 		case reflect.String:
